@@ -33,7 +33,15 @@ EXPLANATION = (
     '0 sum-normalised, ARPACK asked for which="LR"; (D5) implied timescales '
     'are -lag/log(lambda_k), k>=1, from one extra eigenvalue; the ensemble is '
     'advanced by left multiplication n_steps-1 times from a copy of the '
-    'initial populations. Numerical equality of estimator and pipeline is not '
+    'initial populations. Fifth wave: every exit of MSM.__eq__ answers False only '
+    'after a difference and True only after all fitted parts compared equal; the '
+    'model directory leads every os.path.join, the temporary directory is '
+    'published to `path` for the default flags, load does not refuse '
+    'directories; sparse-only attributes are read under issparse; a default '
+    'for a None parameter is computed only when it is None; the padding of a '
+    'timescale row has n_times - len(row) entries and runs whenever that is '
+    'positive; n_times is only reduced, to assigns.max(); eigenspectrum refuses '
+    'only n_eigs < 2. Numerical equality of estimator and pipeline is not '
     'decided.')
 
 
@@ -1429,10 +1437,22 @@ def d5_timescales(ck):
             # meaning (n_states = assigns.max() + 1; n_times is the clipped argument)
             local = {nst: 'n_states', ntm: 'n_times'}.get(k, k)
             g = peel(f2, got)
-            if isinstance(got, ast.Name) and got.id == local or isinstance(g, ast.Name) and g.id == local:
+            if k == nst:
+                # role: the number of states is the largest state id + 1, whatever the local is called
+                vn = classify(f2.expand(got), ['%s.max() + 1' % a2, '1 + %s.max()' % a2, 'int(%s.max()) + 1' % a2, 'int(%s.max() + 1)' % a2,
+                                               'np.amax(%s) + 1' % a2, 'int(np.amax(%s)) + 1' % a2, '%s.max(axis=None) + 1' % a2,
+                                               'max(%s.flatten()) + 1' % a2, '%s.flatten().max() + 1' % a2, '%s.ravel().max() + 1' % a2],
+                              scope={a2})[0]
+                if vn == 'match' and params_intact(f2, got, {a2}):
+                    continue
+                if vn == 'near':
+                    wrong.append('%s=%s (the state count is %s.max() + 1)' % (k, _short(f2.xu(got), 40), a2))
+                    continue
+                if isinstance(got, ast.Name) and got.id == local and len(defs_of(f2, got)) != 1:
+                    continue        # several definitions of the local (not expanded): as before, accepted by name
+                unknown.append('%s=%s' % (k, _short(f2.xu(got), 40)))
                 continue
-            if k == nst and classify(f2.expand(got), ['%s.max() + 1' % a2, '1 + %s.max()' % a2, 'int(%s.max()) + 1' % a2,
-                                                      'int(%s.max() + 1)' % a2], scope={a2})[0] == 'match':
+            if isinstance(got, ast.Name) and got.id == local or isinstance(g, ast.Name) and g.id == local:
                 continue
             if isinstance(g, ast.Name) and (g.id in p2 or g.id in ('n_states', 'n_times') or (isinstance(lv, ast.Name) and g.id == lv.id)):
                 wrong.append('%s=%s' % (k, g.id))
@@ -1445,6 +1465,87 @@ def d5_timescales(ck):
                  'arguments forwarded to the parameters of the same meaning',
                  'calc_imp_times(assigns, lag_time, n_states, n_times, method, sliding_window, trim) must receive each argument in the '
                  'position of the same meaning (wrong: %s)' % ', '.join(wrong))
+
+
+def d5_clip(ck):
+    """How implied_timescales derives the number of timescales it asks
+    calc_imp_times for from its `n_times` argument.  Besides the default for
+    None (C16.D8.optional-arguments) the argument may only be REDUCED, to the
+    number of non-stationary modes `n_states - 1 = assigns.max()`:
+    every store `n_times = B` executed under a comparison of n_times with a
+    bound B' (and every `n_times = min(n_times, B)`) is an upper clamp
+    (B' < n_times or B' <= n_times), compares with the bound it assigns
+    (B' = B), and that bound is assigns.max().  Decided with integer-linear
+    forms over the parameters (lin_form)."""
+    rule = 'C16.D5.timescales.clip'
+    mod = ck.repo.mod(TS)
+    fn = mod.func('implied_timescales')
+    fi = finfo(mod, fn)
+    ps = params(fn)
+    if len(ps) < 4:
+        return
+    a2 = ps[0]
+    p = 'n_times' if 'n_times' in ps else ps[3]
+    Q = 'implied_timescales'
+    SMAX = ('expr', C('%s.max()' % a2))
+    bound_ok = lambda f: f == {SMAX: 1}
+    show = lambda f: ' + '.join(('%s%s' % ('' if c == 1 else '%d*' % c, s_[1]) if s_ != 1 else str(c)) for s_, c in sorted(
+        f.items(), key=lambda x: str(x[0]))) or '0'
+    for st in assigns_to(fn, p):
+        if not isinstance(st, (ast.Assign, ast.AnnAssign)):
+            continue
+        v = fi.def_value(st, p)
+        if v is None:
+            continue
+        # form (ii): n_times = min(n_times, B) / max(...)
+        if isinstance(v, ast.Call) and call_name(v) in ('min', 'max', 'np.minimum', 'np.maximum', 'np.min', 'np.max') and len(v.args) == 2 \
+                and not v.keywords and any(isinstance(a, ast.Name) and a.id == p for a in v.args):
+            B = [a for a in v.args if not (isinstance(a, ast.Name) and a.id == p)]
+            Bf = _lin_clean(lin_form(fi, B[0], st)) if len(B) == 1 else None
+            upper = call_name(v) in ('min', 'np.minimum', 'np.min')
+            if Bf is None:
+                ck.missing(rule, 'bound of the clamp %s' % _short(st, 80))
+            else:
+                ck.check(upper and bound_ok(Bf), rule, mod, st, Q, 'clamp of `%s`: %s' % (p, _short(st, 80)),
+                         '`%s` is reduced to the number of non-stationary modes' % p,
+                         '`%s` %s; the argument may only be reduced, to n_states - 1 = %s.max() (bound here: %s)' % (
+                             _short(st, 80), 'limits `%s` from above' % p if upper else 'RAISES `%s` to the bound' % p, a2, show(Bf)))
+            continue
+        if p in names_loaded(v):
+            continue
+        # form (i): guarded store
+        cmps = []
+        for a in fi.cfg.nodes:
+            if isinstance(a, Assume) and fi.cfg.dominates(a, st):
+                for cj in definite_atoms(a.test, a.polarity):
+                    if isinstance(cj, Cmp) and cj.as_less() is not None and any(
+                            isinstance(x, ast.Name) and x.id == p for x in (cj.lhs, cj.rhs)):
+                        cmps.append((a, cj))
+        if not cmps:
+            continue                # not a clamp (the default for None ...)
+        Bf = _lin_clean(lin_form(fi, v, st))
+        for a, cj in cmps:
+            small, strict, big = cj.as_less()
+            upper = isinstance(big, ast.Name) and big.id == p
+            other = small if upper else big
+            Of = _lin_clean(lin_form(fi, other, a.owner))
+            construct = 'clamp of `%s`: if %r: %s' % (p, cj, _short(st, 60))
+            if not upper:
+                ck.bad(rule, mod, a.owner, Q, construct,
+                       '`%s` is executed when `%s` is BELOW the bound: a smaller number of timescales requested by the caller is raised to '
+                       'the bound, a larger one is not limited; the argument may only be reduced (to n_states - 1)' % (_short(st, 60), p))
+                continue
+            if Bf is None or Of is None:
+                ck.missing(rule, 'bounds of the clamp `if %r: %s`' % (cj, _short(st, 60)))
+                continue
+            if Bf != Of:
+                ck.bad(rule, mod, a.owner, Q, construct,
+                       'the bound that `%s` is compared with (%s) is not the bound it is set to (%s): values in between are not clamped / '
+                       'the clamp changes values that are within range' % (p, show(Of), show(Bf)))
+                continue
+            ck.check(bound_ok(Bf), rule, mod, a.owner, Q, construct, '`%s` is reduced to the number of non-stationary modes' % p,
+                     '`%s` must be limited to n_states - 1 = %s.max() (one eigenvalue is the stationary one); the bound here is %s' % (
+                         p, a2, show(Bf)))
 
 
 # padding / length normalisation of a 1-d result (its-trim-ragged)
@@ -1507,6 +1608,161 @@ def _unpadded(fi, val):
     return bases[0], fi.def_value(bases[0], val.id)
 
 
+def lin_form(fi, e, st, depth=10):
+    """Integer-linear form {symbol: coefficient} (symbol 1 = the constant) of
+    the expression `e` as evaluated at statement `st`, over the symbols
+    ('param', p) - the value of parameter p at entry - and ('len', X, defs) -
+    the length of the array X as defined at `defs`.  Names are resolved
+    through their single reaching definition (`n = <expr>`, `n += c`,
+    `n -= c`).  None if the expression is not of that kind."""
+    if depth < 0 or e is None:
+        return None
+    add = lambda a, b, k=1: None if a is None or b is None else {s: a.get(s, 0) + k * b.get(s, 0) for s in set(a) | set(b)}
+    cv = const_value(e, default=None)
+    if isinstance(cv, int) and not isinstance(cv, bool):
+        return {1: cv}
+    if isinstance(e, ast.Name):
+        ds = fi.rd.defs_at(st, e.id)
+        if ds == {'PARAM'}:
+            return {('param', e.id): 1}
+        if len(ds) != 1:
+            return None
+        d = next(iter(ds))
+        if isinstance(d, ast.AugAssign) and isinstance(d.target, ast.Name) and d.target.id == e.id and isinstance(d.op, (ast.Add, ast.Sub)):
+            return add(lin_form(fi, ast.Name(id=e.id, ctx=ast.Load()), d, depth - 1), lin_form(fi, d.value, d, depth - 1),
+                       1 if isinstance(d.op, ast.Add) else -1)
+        v = fi.def_value(d, e.id) if isinstance(d, (ast.Assign, ast.AnnAssign)) else None
+        return lin_form(fi, v, d, depth - 1) if v is not None else None
+    if isinstance(e, ast.BinOp) and isinstance(e.op, (ast.Add, ast.Sub)):
+        return add(lin_form(fi, e.left, st, depth - 1), lin_form(fi, e.right, st, depth - 1), 1 if isinstance(e.op, ast.Add) else -1)
+    if isinstance(e, ast.BinOp) and isinstance(e.op, ast.Mult):
+        a, b = lin_form(fi, e.left, st, depth - 1), lin_form(fi, e.right, st, depth - 1)
+        for x, y in ((a, b), (b, a)):
+            if x is not None and y is not None and set(x) <= {1}:
+                return {s_: x.get(1, 0) * c for s_, c in y.items()}
+        return None
+    if isinstance(e, ast.UnaryOp) and isinstance(e.op, ast.USub):
+        a = lin_form(fi, e.operand, st, depth - 1)
+        return None if a is None else {s_: -c for s_, c in a.items()}
+    arr = None
+    if isinstance(e, ast.Call) and call_name(e) in ('len', 'np.size') and len(e.args) == 1 and not e.keywords:
+        arr = e.args[0]
+    elif isinstance(e, ast.Attribute) and e.attr == 'size':
+        arr = e.value
+    elif isinstance(e, ast.Subscript) and isinstance(e.value, ast.Attribute) and e.value.attr == 'shape' and const_value(e.slice, default=None) == 0:
+        arr = e.value.value
+    if isinstance(arr, ast.Name):
+        return {('len', arr.id, frozenset(id(d) if not isinstance(d, str) else d for d in fi.rd.defs_at(st, arr.id))): 1}
+    if isinstance(e, ast.Call) and call_name(e) == 'int' and len(e.args) == 1 and not e.keywords:
+        inner = lin_form(fi, e.args[0], st, depth - 1)
+        if inner is not None:
+            return inner            # int() of an integer-valued form
+    if isinstance(e, (ast.Call, ast.Attribute, ast.Subscript)):
+        ns = [m for m in walk_expr(e) if isinstance(m, ast.Name) and isinstance(m.ctx, ast.Load)]
+        free = [m for m in ns if m.id not in ('np', 'numpy', 'int', 'len', 'max', 'min')]
+        if free and all(fi.rd.defs_at(st, m.id) == {'PARAM'} for m in free):
+            return {('expr', _cx(e)): 1}        # an opaque value computed from the parameters alone
+    return None
+
+
+def _lin_clean(f):
+    return {s_: c for s_, c in f.items() if c != 0} if f is not None else None
+
+
+def _filler_count(v, row):
+    """(count expression) of the filler a padding expression appends to the
+    array `row` (see _is_pad_of); None if the filler is not of a known form."""
+    if not isinstance(v, ast.Call):
+        return None
+    cn = call_name(v)
+    filler = None
+    if cn in ('np.concatenate', 'np.hstack') and v.args and isinstance(v.args[0], (ast.List, ast.Tuple)) and len(v.args[0].elts) == 2:
+        filler = v.args[0].elts[1]
+    elif cn == 'np.append' and len(v.args) >= 2:
+        filler = v.args[1]
+    elif cn == 'np.pad' and len(v.args) >= 2 and isinstance(v.args[1], (ast.Tuple, ast.List)) and len(v.args[1].elts) == 2:
+        return v.args[1].elts[1]
+    if filler is None:
+        return None
+    if isinstance(filler, ast.Call) and call_name(filler) in ('np.full', 'np.zeros', 'np.ones', 'np.empty', 'np.repeat', 'np.tile') and filler.args:
+        a = filler.args[1] if call_name(filler) in ('np.repeat', 'np.tile') and len(filler.args) > 1 else filler.args[0]
+        if isinstance(a, (ast.Tuple, ast.List)) and len(a.elts) == 1:
+            a = a.elts[0]
+        return a
+    if isinstance(filler, ast.BinOp) and isinstance(filler.op, ast.Mult):
+        for x, y in ((filler.left, filler.right), (filler.right, filler.left)):
+            if isinstance(x, ast.List) and len(x.elts) == 1:
+                return y
+    return None
+
+
+def _pad_arithmetic(ck, rule, mod, fi, fn, ntm, normalised):
+    """The padding of the row is sized and guarded so that the row has the
+    REQUESTED length: with D = n_times(at entry) - len(row), the filler has D
+    entries and the padding statement is executed whenever D >= 1.  Returns
+    True if it reported (ok or bad); False if the form is not one it reads."""
+    st = fi.stmt(normalised)
+    rows = [a for a in ast.walk(normalised) if isinstance(a, ast.Name)]
+    row = next((a for a in rows if _is_pad_of(fi, normalised, a.id)), None)
+    if st is None or row is None:
+        return False
+    k = _filler_count(normalised, row.id)
+    kf = _lin_clean(lin_form(fi, k, st)) if k is not None else None
+    if kf is None:
+        return False
+    N0 = ('param', ntm)
+    L = ('len', row.id, frozenset(id(d) if not isinstance(d, str) else d for d in fi.rd.defs_at(st, row.id)))
+    want = {N0: 1, L: -1}
+    Q = 'calc_imp_times'
+    construct = 'number of filler entries appended to the row: %s' % _short(fi.xu(k), 80)
+    if not set(kf) <= {N0, L, 1}:
+        return False
+    if kf != want:
+        ck.bad(rule, mod, st, Q, construct,
+               'the row must be padded to the requested length: with the %s requested at entry and len(%s) values obtained the filler '
+               'needs %s - len(%s) entries; `%s` evaluates to %s' % (
+                   ntm, row.id, ntm, row.id, _short(k, 60),
+                   ' + '.join(('%d*%s' % (c, 'len(%s)' % s_[1] if s_[0] == 'len' else s_[1]) if s_ != 1 else str(c)) for s_, c in sorted(
+                       kf.items(), key=lambda x: str(x[0]))) or '0'))
+        return True
+    # the guard: true for every D >= 1
+    bad_guard = None
+    for a in fi.cfg.nodes:
+        if not (isinstance(a, Assume) and fi.cfg.dominates(a, st)):
+            continue
+        for cj in conjuncts(a.test, a.polarity) or []:
+            if isinstance(cj, Cmp):
+                g = _lin_clean(add_lin(lin_form(fi, cj.lhs, a.owner), lin_form(fi, cj.rhs, a.owner), -1))
+                op = cj.op
+            else:
+                g = _lin_clean(lin_form(fi, cj[1], a.owner))
+                op = ast.NotEq if cj[2] else ast.Eq
+            if g is None or not set(g) <= {N0, L, 1} or g.get(N0, 0) != -g.get(L, 0):
+                continue
+            ca, cb = g.get(N0, 0), g.get(1, 0)
+            if ca == 0:
+                continue
+            test = {ast.Lt: lambda x: x < 0, ast.LtE: lambda x: x <= 0, ast.Gt: lambda x: x > 0, ast.GtE: lambda x: x >= 0,
+                    ast.Eq: lambda x: x == 0, ast.NotEq: lambda x: x != 0}.get(op)
+            if test is None:
+                continue
+            fails = [D for D in (1, 2, 3, 10 ** 6) if not test(ca * D + cb)]
+            if fails:
+                bad_guard = (a, cj, fails[0])
+    if bad_guard is not None:
+        a, cj, D = bad_guard
+        ck.bad(rule, mod, a.owner, Q, 'condition under which the row is padded: %s' % _short(repr(cj) if isinstance(cj, Cmp) else u(cj[1]), 80),
+               'the padding `%s` must run whenever fewer values than requested were obtained; under this condition it is skipped when '
+               '%d value(s) are missing (rows of different lengths: implied_timescales cannot stack them)' % (_short(st, 80), D))
+        return True
+    ck.ok(rule, mod, st, construct, 'the row is padded to the requested length: %s' % _short(normalised, 80))
+    return True
+
+
+def add_lin(a, b, k=1):
+    return None if a is None or b is None else {s_: a.get(s_, 0) + k * b.get(s_, 0) for s_ in set(a) | set(b)}
+
+
 def d5_length(ck):
     """its-trim-ragged.  implied_timescales stacks one row per lag time into a
     2-d array, so every row must have the same length.  A row is
@@ -1560,6 +1816,8 @@ def d5_length(ck):
             if has_len and ntm in names_loaded(t):
                 compared = a
     if normalised is not None:
+        if _pad_arithmetic(ck, rule, mod, fi, fn, ntm, normalised):
+            return
         ck.ok(rule, mod, fi.stmt(normalised) or fn, construct, 'the row is padded to the requested length: %s' % _short(normalised, 80))
         return
     if compared is not None:
@@ -2057,6 +2315,738 @@ def d4_reentry(ck):
         ck.missing(rule, 'eigenspectrum calls itself (%s) but no return path carries the result' % _short(own[0]))
 
 
+# ---------------------------------------------------------------------------
+# Fifth wave (survivors of the generic mutants)
+
+def _subst_single_defs(fi, e, depth=6):
+    """Copy of `e` in which a Name with exactly one reaching definition
+    `n = <expr>` (any call, also one the purity oracle does not know) whose
+    operands have the same reaching definitions at the use is replaced by that
+    expression.  Only for comparing two READS of values of the same function
+    (the facts of a comparison method): evaluation order does not matter
+    there."""
+    import copy as _copy
+
+    def ex(n, d):
+        if isinstance(n, ast.Name) and isinstance(n.ctx, ast.Load) and d > 0:
+            ds = defs_of(fi, n)
+            if len(ds) == 1:
+                site = next(iter(ds))
+                v = fi.def_value(site, n.id) if isinstance(site, (ast.Assign, ast.AnnAssign)) else None
+                if v is not None and not isinstance(v, (ast.GeneratorExp, ast.Lambda)):
+                    use = fi.stmt(n)
+                    if all(fi.rd.defs_at(site, m.id) == fi.rd.defs_at(use, m.id) for m in walk_expr(v)
+                           if isinstance(m, ast.Name) and isinstance(m.ctx, ast.Load)):
+                        return ex(v, d - 1)
+            return n
+        if not isinstance(n, ast.AST) or isinstance(n, (ast.expr_context, ast.operator, ast.unaryop, ast.boolop, ast.cmpop)):
+            return n
+        new = type(n)()
+        for f in n._fields:
+            val = getattr(n, f, None)
+            if isinstance(val, list):
+                setattr(new, f, [ex(x, d) for x in val])
+            elif isinstance(val, ast.AST):
+                setattr(new, f, ex(val, d))
+            else:
+                setattr(new, f, val)
+        return ast.copy_location(new, n) if hasattr(n, 'lineno') else new
+    return ex(e, depth)
+
+
+class _Rename(ast.NodeTransformer):
+    def __init__(self, m):
+        self.m = m
+
+    def visit_Name(self, n):
+        return ast.copy_location(ast.Name(id=self.m.get(n.id, n.id), ctx=n.ctx), n)
+
+
+def _mirror_key(a, b, me, ot):
+    """`a` and `b` are the same expression, one over `me` and one over `ot`
+    (an aspect of the two operands of a comparison method): the expression
+    with the operand written `$`; None otherwise."""
+    import copy as _copy
+    na, nb = {n.id for n in ast.walk(a) if isinstance(n, ast.Name)}, {n.id for n in ast.walk(b) if isinstance(n, ast.Name)}
+    if not ((me in na and ot not in na and ot in nb and me not in nb) or (ot in na and me not in na and me in nb and ot not in nb)):
+        return None
+    ka = _cx(_Rename({me: '_O_', ot: '_O_'}).visit(_copy.deepcopy(a)))
+    kb = _cx(_Rename({me: '_O_', ot: '_O_'}).visit(_copy.deepcopy(b)))
+    return ka if ka == kb else None
+
+
+_ALL_CLOSE = ('np.allclose', 'np.array_equal', 'np.array_equiv', 'numpy.allclose', 'numpy.array_equal', 'numpy.array_equiv')
+_COUNTERS = ('nnz', 'getnnz', 'count_nonzero', 'sum', 'any')
+
+
+def _elementwise(e, me, ot):
+    """e is an elementwise comparison `A == B` / `A != B` of mirror
+    expressions: (is_eq, key); None otherwise."""
+    if isinstance(e, ast.Compare) and len(e.ops) == 1 and isinstance(e.ops[0], (ast.Eq, ast.NotEq)):
+        k = _mirror_key(e.left, e.comparators[0], me, ot)
+        if k is not None:
+            return isinstance(e.ops[0], ast.Eq), k
+    return None
+
+
+def _count_of(e, me, ot):
+    """e counts the True entries of an elementwise comparison:
+    `(A != B).nnz`, `.getnnz()`, `.count_nonzero()`, `.sum()`,
+    `np.count_nonzero(A != B)`: (is_eq, key); None otherwise."""
+    inner = None
+    if isinstance(e, ast.Attribute) and e.attr == 'nnz':
+        inner = e.value
+    elif isinstance(e, ast.Call) and isinstance(e.func, ast.Attribute) and not e.args and not e.keywords and \
+            e.func.attr in ('getnnz', 'count_nonzero', 'sum'):
+        inner = e.func.value
+    elif isinstance(e, ast.Call) and call_name(e) in ('np.count_nonzero', 'numpy.count_nonzero', 'np.sum') and len(e.args) == 1 and not e.keywords:
+        inner = e.args[0]
+    return _elementwise(inner, me, ot) if inner is not None else None
+
+
+def _eq_fact(fi, atom, me, ot):
+    """What one atomic condition of a comparison method establishes about its
+    two operands `me` / `ot`:
+      ('same', key) / ('diff', key)   the aspect `key` ($ = the operand) of the two is equal / differs
+      ('garbled', key)                a recognised comparison of the aspect whose sense is neither
+                                      (every element differs, some element is equal ...)
+      ('ident',) / ('notident',)      the operands are (not) the same object
+      ('none', who, key) / ('notnone', who, key)   an aspect of ONE operand is (not) None
+      None                            not recognised."""
+    if isinstance(atom, Cmp):
+        lhs, rhs, op = _subst_single_defs(fi, atom.lhs), _subst_single_defs(fi, atom.rhs), atom.op
+        if op in (ast.Is, ast.IsNot):
+            names = {x.id for x in (lhs, rhs) if isinstance(x, ast.Name)}
+            if names == {me, ot}:
+                return ('ident',) if op is ast.Is else ('notident',)
+            for a, b in ((lhs, rhs), (rhs, lhs)):
+                if isinstance(b, ast.Constant) and b.value is None:
+                    ns = {n.id for n in ast.walk(a) if isinstance(n, ast.Name)}
+                    if ns == {me} or ns == {ot}:
+                        who = me if ns == {me} else ot
+                        import copy as _copy
+                        key = _cx(_Rename({who: '_O_'}).visit(_copy.deepcopy(a)))
+                        return ('none' if op is ast.Is else 'notnone', who, key)
+            return None
+        if op in (ast.Eq, ast.NotEq):
+            k = _mirror_key(lhs, rhs, me, ot)
+            if k is not None:
+                return ('same' if op is ast.Eq else 'diff', k)
+        # a count of (un)equal entries against zero
+        for a, b, o in ((lhs, rhs, op), (rhs, lhs, {ast.Lt: ast.Gt, ast.Gt: ast.Lt, ast.LtE: ast.GtE, ast.GtE: ast.LtE}.get(op, op))):
+            c = _count_of(a, me, ot)
+            z = const_value(b, default=None)
+            if c is None or isinstance(z, bool) or not isinstance(z, int):
+                continue
+            is_eq, k = c
+            if z == 0 and o in (ast.NotEq, ast.Gt):
+                nonzero = True
+            elif (z == 0 and o in (ast.Eq, ast.LtE)) or (z == 1 and o is ast.Lt):
+                nonzero = False
+            elif z == 1 and o is ast.GtE:
+                nonzero = True
+            else:
+                return None
+            if is_eq:
+                return ('garbled', k)       # "some / no entries are equal": neither equality nor difference
+            return ('diff' if nonzero else 'same', k)
+        return None
+    _, e, pol = atom
+    e = _subst_single_defs(fi, e)
+    if isinstance(e, ast.Call) and call_name(e) in ('isinstance', 'hasattr') and e.args and isinstance(e.args[0], ast.Name) and e.args[0].id == ot:
+        return ('kind',) if pol else ('notkind',)       # the other operand is (not) a model at all
+    if isinstance(e, ast.Call) and isinstance(e.func, ast.Attribute) and not e.args and not e.keywords and e.func.attr in ('all', 'any'):
+        c = _elementwise(e.func.value, me, ot)
+        if c is not None:
+            is_eq, k = c
+            if e.func.attr == 'all':
+                return (('same' if pol else 'diff'), k) if is_eq else ('garbled', k)
+            return ('garbled', k) if is_eq else (('diff' if pol else 'same'), k)
+    if isinstance(e, ast.Call) and call_name(e) in _ALL_CLOSE and len(e.args) >= 2:
+        k = _mirror_key(e.args[0], e.args[1], me, ot)
+        if k is not None:
+            return ('same' if pol else 'diff', k)
+    c = _count_of(e, me, ot)
+    if c is not None:
+        is_eq, k = c
+        return ('garbled', k) if is_eq else ('diff' if pol else 'same', k)
+    c = _elementwise(e, me, ot)     # a bare `A == B` used as a truth value (scalars / dicts / objects with __eq__)
+    if c is not None:
+        is_eq, k = c
+        return ('same' if is_eq == pol else 'diff', k)
+    return None
+
+
+def _neg_atom(a):
+    return a.negated() if isinstance(a, Cmp) else ('expr', a[1], not a[2])
+
+
+# how an aspect `key` covers the VALUE of the fitted attribute `$.F`
+_VALUE_WRAPPERS = ('%s', 'sparse.csr_matrix(%s)', 'scipy.sparse.csr_matrix(%s)', 'sparse.csc_matrix(%s)', 'sparse.coo_matrix(%s)',
+                   'np.asarray(%s)', 'np.array(%s)', '%s.toarray()', '%s.todense()', '%s.tocsr()', '%s.tocoo()', '%s.tocsc()',
+                   'np.asarray(%s.todense())', 'dict(%s)', 'list(%s)', 'tuple(%s)', '%s.to_original', '%s.A')
+_FIND_FORMS = ('sparse.find(%s)[%d]', 'scipy.sparse.find(%s)[%d]', 'find(%s)[%d]')
+
+
+def _covered(field, same_keys):
+    """True: the value of $.field is established equal by the `same` keys;
+    False: no key says anything about its value; None: a key mentions the
+    field in a form the rule does not know (not decided)."""
+    a = '_O_.%s' % field
+    full = {C(w % a) for w in _VALUE_WRAPPERS}
+    if same_keys & full:
+        return True
+    for form in _FIND_FORMS:
+        if all(C(form % (a, i)) in same_keys for i in (0, 1, 2)):
+            return True
+    partial = {C(w % a) for w in ('%s.shape', 'len(%s)', '%s.nnz', '%s.dtype', '%s.shape[0]', '%s.shape[1]', '%s.size', '%s.ndim', 'type(%s)')}
+    partial |= {C(f % (a, i)) for f in _FIND_FORMS for i in (0, 1, 2)}
+    import re
+    odd = [k for k in same_keys if re.search(r'(?<![\w])_O_\.%s(?![\w])' % re.escape(field), k) and k not in partial]
+    return None if odd else False
+
+
+def d3_eq_exits(ck, mod):
+    """Every exit of MSM.__eq__ (the observation `MSM.load(save(m)) == m` of
+    the round-trip clause).  Necessary: a path that answers False has
+    established that some compared aspect of the two models DIFFERS; a path
+    that answers True has established identity, or that both are unfitted,
+    or that config, tcounts_, tprobs_, eq_probs_ and mapping_ are all equal -
+    and nothing on it says that an aspect differs.  The facts of a path are
+    the branch assumptions that dominate the exit (conjunctions; a
+    disjunction establishes none of its members)."""
+    rule = 'C16.D3.equality.exits'
+    fn = mod.functions.get('MSM.__eq__')
+    if fn is None:
+        return
+    fi = finfo(mod, fn)
+    if len(params(fn)) < 2:
+        ck.missing(rule, 'signature MSM.__eq__(self, other)')
+        return
+    me, ot = params(fn)[:2]
+    Q = 'MSM.__eq__'
+    required = ('config', 'tcounts_', 'tprobs_', 'eq_probs_', 'mapping_')
+    rets = list(returns_of(fn))
+    if not rets:
+        ck.missing(rule, 'return statements of MSM.__eq__')
+        return
+    # a fall-through to the end of the function returns None (falsy) without a verdict: not enumerated here
+    n = 0
+    for a in fi.cfg.nodes:
+        if isinstance(a, Assume) and a.polarity:
+            atoms = conjuncts(a.test, True) or conjuncts(a.test, False) or []
+            for x in atoms:
+                f = _eq_fact(fi, x, me, ot)
+                if f is not None and f[0] == 'garbled':
+                    ck.bad(rule, mod, a.owner, Q, 'test `%s`' % _short(x if isinstance(x, Cmp) else x[1], 120).replace('\n', ' '),
+                           'this test of `%s` is neither "the two are equal" nor "the two differ" (it asks whether EVERY entry differs / '
+                           'whether SOME entry is equal): two equal models are answered False, or two different ones True'
+                           % f[1].replace('_O_', 'model'))
+    for r in rets:
+        conj, disj, unknown = [], [], []
+        for a in fi.cfg.nodes:
+            if not (isinstance(a, Assume) and fi.cfg.dominates(a, r)):
+                continue
+            cj = conjuncts(a.test, a.polarity)
+            if cj is not None:
+                for x in cj:
+                    f = _eq_fact(fi, x, me, ot)
+                    (conj if f is not None else unknown).append((f, a))
+                continue
+            dj = conjuncts(a.test, not a.polarity)
+            if dj is None:
+                unknown.append((None, a))
+                continue
+            fs = [_eq_fact(fi, _neg_atom(x), me, ot) for x in dj]
+            if any(f is None for f in fs):
+                unknown.append((None, a))
+            else:
+                disj.append((fs, a))
+        # outcomes of this return: a constant, or an expression whose truth value is the verdict
+        v = r.value
+        cv = const_value(v, default=None) if v is not None else None
+        if isinstance(cv, bool):
+            outcomes = [(cv, [], [], [])]
+        elif v is None:
+            ck.missing(rule, 'MSM.__eq__ returns without a value at line %s' % r.lineno)
+            continue
+        elif isinstance(v, ast.Name) and v.id == 'NotImplemented':
+            continue            # defers to the other operand: neither answer
+        else:
+            outcomes = []
+            for pol in (True, False):
+                c2, d2, u2 = [], [], []
+                cj = conjuncts(v, pol)
+                if cj is not None:
+                    for x in cj:
+                        f = _eq_fact(fi, x, me, ot)
+                        (c2 if f is not None else u2).append((f, r))
+                else:
+                    dj = conjuncts(v, not pol)
+                    fs = [_eq_fact(fi, _neg_atom(x), me, ot) for x in dj] if dj is not None else [None]
+                    if any(f is None for f in fs):
+                        u2.append((None, r))
+                    else:
+                        d2.append((fs, r))
+                outcomes.append((pol, c2, d2, u2))
+        for answer, c2, d2, u2 in outcomes:
+            n += 1
+            cfacts = [f for f, _ in conj + c2]
+            dgroups = [fs for fs, _ in disj + d2]
+            unk = unknown + u2
+            # the exit is named by the condition(s) closest to it
+            ft = lambda f: ('%s(%s)' % (f[0], f[-1]) if len(f) > 1 else f[0]).replace('_O_.', '').replace('_O_', 'model')
+            tagged = [(a, ft(f)) for f, a in conj + c2] + [(a, '(%s)' % ' or '.join(ft(f) for f in fs)) for fs, a in disj + d2]
+            last = max([getattr(a, 'lineno', 0) for a, _ in tagged] or [0])
+            near_ = [t for a, t in tagged if getattr(a, 'lineno', 0) == last]
+            construct = 'answers %s when %s%s' % (answer, _short(' and '.join(near_) or 'unconditional', 150),
+                                                  ' (after %d earlier conditions)' % (len(tagged) - len(near_)) if len(tagged) > len(near_) else '')
+            garbled = [f for f in cfacts if f[0] == 'garbled'] + [f for fs in dgroups for f in fs if f[0] == 'garbled']
+            if garbled:
+                continue            # reported once, at the test (above)
+            nones = {(f[1], f[2]) for f in cfacts if f[0] == 'none'}
+            notnones = {(f[1], f[2]) for f in cfacts if f[0] == 'notnone'}
+            mism = [k for w, k in nones if any(w2 != w and k2 == k for w2, k2 in notnones)]
+            both_none = [k for w, k in nones if any(w2 != w and k2 == k for w2, k2 in nones)]
+            diffs = [f for f in cfacts if f[0] == 'diff'] + [('diff', k) for k in mism] + [('diff', 'type of the operand') for f in cfacts
+                                                                                          if f[0] == 'notkind']
+            gdiffs = [fs for fs in dgroups if all(f[0] == 'diff' for f in fs)]
+            if answer is False:
+                if diffs or gdiffs:
+                    ck.ok(rule, mod, r, construct, 'False is answered after a compared aspect was found to differ')
+                elif unk:
+                    ck.missing(rule, 'condition of `return False` at line %s of MSM.__eq__ not recognised: %s' % (
+                        r.lineno, _short(unk[0][1].test if isinstance(unk[0][1], Assume) else unk[0][1], 80)))
+                else:
+                    ck.bad(rule, mod, r, Q, construct,
+                           'MSM.__eq__ answers False on a path on which nothing was found to differ (the conditions that hold there say the '
+                           'compared aspects are EQUAL, or only that one of several is): a model is then not equal to its own saved and '
+                           're-loaded copy')
+                continue
+            # answer True
+            if ('ident',) in cfacts:
+                ck.ok(rule, mod, r, construct, 'the same object')
+                continue
+            if diffs or gdiffs:
+                ck.bad(rule, mod, r, Q, construct,
+                       'MSM.__eq__ answers True on a path on which `%s` was found to DIFFER' % (diffs[0][1] if diffs else gdiffs[0][0][1]).replace('_O_', 'model'))
+                continue
+            same_keys = {f[1] for f in cfacts if f[0] == 'same'}
+            need = [F for F in required if F != 'config'] if not both_none else []
+            cov = {F: _covered(F, same_keys) for F in ['config'] + need}
+            lacking = [F for F, c in cov.items() if c is False]
+            undecided = [F for F, c in cov.items() if c is None]
+            if not lacking and not undecided:
+                ck.ok(rule, mod, r, construct, 'True is answered after %s were found equal' % (
+                    'the configurations (both models unfitted)' if both_none else 'configuration, counts, probabilities, populations and mapping'))
+            elif lacking and not unk and not undecided:
+                ck.bad(rule, mod, r, Q, construct,
+                       'MSM.__eq__ answers True without having established that %s of the two models are equal (every condition on the '
+                       'path was recognised): models that differ there compare equal' % ', '.join('`%s`' % F for F in lacking))
+            else:
+                ck.missing(rule, 'path of MSM.__eq__ that answers True at line %s: equality of %s not established by recognised conditions' % (
+                    r.lineno, ', '.join(lacking + undecided)))
+    ck.floor(rule, n, 2, 'exits of MSM.__eq__')
+
+
+def _with_handles(fn):
+    """{handle name: (With statement, context expression)} for `with <ctx> as h`."""
+    out = {}
+    for w in ast.walk(fn):
+        if isinstance(w, (ast.With, ast.AsyncWith)):
+            for item in w.items:
+                if isinstance(item.optional_vars, ast.Name):
+                    out[item.optional_vars.id] = (w, item.context_expr)
+    return out
+
+
+def d3_files(ck, mod):
+    """The files of a saved model.  save builds the model in a temporary
+    directory and publishes it under `path`; load reads from `path`.
+    Necessary for load(save(m)) to exist at all:
+    (paths)     in every os.path.join that mentions the model directory (the
+                `path` parameter / the temporary directory) that directory is the
+                FIRST component (join(a, b) is b below a);
+    (publish)   the temporary directory is the source and `path` the
+                destination of the call that publishes it, and that call is
+                reached for the default flags;
+    (reachable) load does not refuse a path for being a directory - a
+                directory is what save writes;
+    (manifest)  json.dump gets (manifest dict, file handle) in this order,
+                json.load the handle."""
+    rule = 'C16.D3.save-load'
+    save, load = mod.func('MSM.save'), mod.func('MSM.load')
+    fs, fl = finfo(mod, save), finfo(mod, load)
+    n_paths = 0
+    for fn, fi, qual in ((save, fs, 'MSM.save'), (load, fl, 'MSM.load')):
+        ps = params(fn)
+        path = 'path' if 'path' in ps else (ps[1] if len(ps) > 1 else None)
+        handles = _with_handles(fn)
+        dirs = {path} if path else set()
+        dirs |= {h for h, (w, ce) in handles.items() if isinstance(ce, ast.Call) and _last(ce) in ('TemporaryDirectory', 'mkdtemp')}
+        dirs |= {t.id for a in ast.walk(fn) if isinstance(a, ast.Assign) and isinstance(a.value, ast.Call) and _last(a.value) == 'mkdtemp'
+                 for t in a.targets if isinstance(t, ast.Name)}
+        # ---- (paths)
+        for c in ast.walk(fn):
+            if not (isinstance(c, ast.Call) and call_name(c) in ('os.path.join', 'posixpath.join', 'join') and not c.keywords):
+                continue
+            if any(isinstance(a, ast.Starred) for a in c.args):
+                continue
+            pos = [i for i, a in enumerate(c.args) if isinstance(a, ast.Name) and a.id in dirs]
+            if not pos:
+                continue
+            n_paths += 1
+            ck.check(pos[0] == 0, rule + '.paths', mod, c, qual, 'os.path.join with the model directory `%s`' % c.args[pos[0]].id,
+                     'the model directory is the first component of the joined path',
+                     '`%s`: os.path.join(a, b) names b BELOW a, so the model directory `%s` must come first; here the file name is '
+                     'the leading component (for a relative file name the result is <file>/<directory>, for an absolute directory it '
+                     'is the bare directory): the files of the model are not found / not written where load looks for them'
+                     % (_short(c, 80), c.args[pos[0]].id))
+    ck.floor(rule + '.paths', n_paths, 2, 'os.path.join calls that place a file in the model directory')
+
+    # ---- (publish)
+    sps = params(save)
+    spath = 'path' if 'path' in sps else (sps[1] if len(sps) > 1 else None)
+    handles = _with_handles(save)
+    tmps = {h for h, (w, ce) in handles.items() if isinstance(ce, ast.Call) and _last(ce) == 'TemporaryDirectory'}
+    movers = {'shutil.copytree': ('src', 'dst'), 'shutil.move': ('src', 'dst'), 'os.rename': ('src', 'dst'), 'os.replace': ('src', 'dst'),
+              'shutil.copy': ('src', 'dst'), 'shutil.copy2': ('src', 'dst')}
+    if tmps and spath:
+        pubs = []
+        for c in calls_in(save):
+            if call_name(c) in movers:
+                b = bind_args(c, movers[call_name(c)])
+                if b is None:
+                    continue
+                names = {k: peel(fs, v) for k, v in b.items()}
+                ids = {k: v.id for k, v in names.items() if isinstance(v, ast.Name)}
+                if set(ids.values()) & tmps and spath in ids.values():
+                    pubs.append((c, ids))
+        if not pubs:
+            ck.missing(rule + '.publish', 'the call that copies / moves the temporary directory of MSM.save to `%s`' % spath)
+        for c, ids in pubs:
+            ok = ids.get('src') in tmps and ids.get('dst') == spath
+            ck.check(ok, rule + '.publish', mod, c, 'MSM.save', 'publication of the temporary directory: %s' % call_name(c),
+                     'the temporary directory is the source, `%s` the destination' % spath,
+                     '`%s` copies FROM `%s` INTO `%s`: the model was written to the temporary directory `%s`, which is deleted at the end '
+                     'of the with block; nothing is stored under `%s` (the call fails when `%s` does not exist yet)'
+                     % (_short(c, 80), ids.get('src'), ids.get('dst'), sorted(tmps)[0], spath, spath))
+            # reached for the default flags
+            st = fs.stmt(c)
+            atoms = guard_atoms(fs, st) if st is not None else None
+            if atoms is None:
+                continue
+            for t, pol in atoms:
+                if t in sps:
+                    d = param_default_value(save, t)
+                    if isinstance(d, bool) or d is None and param_has_default(save, t):
+                        ck.check(bool(d) == pol, rule + '.publish', mod, st, 'MSM.save',
+                                 'publication is reached for the default `%s=%r`' % (t, d),
+                                 'the model is published for the default flags',
+                                 '`%s` is executed only when `%s` is %s, but the default is %s=%r: a plain save(path) builds the model in the '
+                                 'temporary directory and never stores it (the other branch raises)' % (_short(c, 60), t, pol, t, d))
+
+    # ---- (reachable)
+    lps = params(load)
+    lpath = 'path' if 'path' in lps else (lps[1] if len(lps) > 1 else None)
+    for r in walk_local(load):
+        if not isinstance(r, ast.Raise):
+            continue
+        for a in fl.cfg.nodes:
+            if isinstance(a, Assume) and fl.cfg.dominates(a, r):
+                for cj in conjuncts(a.test, a.polarity) or []:
+                    if isinstance(cj, tuple) and isinstance(cj[1], ast.Call) and call_name(cj[1]) in ('os.path.isdir', 'os.path.exists') \
+                            and len(cj[1].args) == 1 and is_param(fl, cj[1].args[0], lpath):
+                        ck.check(cj[2] is False, rule + '.reachable', mod, r, 'MSM.load',
+                                 'raise under %s(%s) is %s' % (call_name(cj[1]), lpath, cj[2]),
+                                 'load only refuses paths that are not a directory',
+                                 'MSM.load raises when %s(%s) holds, i.e. for exactly what MSM.save writes (copytree creates a directory): '
+                                 'no saved model can be loaded' % (call_name(cj[1]), lpath))
+
+    # ---- (manifest)
+    for fn, fi, qual, names, sig in ((save, fs, 'MSM.save', ('json.dump',), ('obj', 'fp')), (load, fl, 'MSM.load', ('json.load',), ('fp',))):
+        handles = _with_handles(fn)
+        for c in calls_in(fn):
+            if call_name(c) not in names:
+                continue
+            b = bind_args(c, sig)
+            if b is None or 'fp' not in b:
+                ck.missing(rule + '.manifest', 'arguments of %s' % _short(c))
+                continue
+            fp, obj = b.get('fp'), b.get('obj')
+            def handle_of_enclosing_with(x):
+                if not isinstance(x, ast.Name):
+                    return False
+                n = mod.parent.get(c)
+                while n is not None and n is not fn:
+                    if isinstance(n, (ast.With, ast.AsyncWith)) and any(
+                            isinstance(i.optional_vars, ast.Name) and i.optional_vars.id == x.id for i in n.items):
+                        return defs_of(fi, x) == {n}
+                    n = mod.parent.get(n)
+                return False
+            is_handle = handle_of_enclosing_with(fp)
+            obj_is_handle = handle_of_enclosing_with(obj)
+            if is_handle:
+                v = 'match'
+            elif obj_is_handle:
+                v = 'near'
+            else:
+                v = 'far'
+            ck.decide(v, rule + '.manifest', mod, c, qual, '%s(%s)' % (call_name(c), ', '.join('%s=%s' % (k, _short(x, 30)) for k, x in b.items()
+                                                                                               if k in ('obj', 'fp'))),
+                      'the manifest goes through the handle of the enclosing `with open(...)`',
+                      '`%s`: json.dump(obj, fp) writes obj to the file fp; here the open file is passed as the object and the manifest as the '
+                      'file: save raises, no model is written' % _short(c, 80))
+
+
+def param_has_default(fn, name):
+    from ..core import param_default
+    return param_default(fn, name) is not None
+
+
+def param_default_value(fn, name):
+    """The constant default of a parameter (None if it has none or it is not a constant)."""
+    from ..core import param_default
+    d = param_default(fn, name)
+    return const_value(d, default=None) if d is not None else None
+
+
+def definite_atoms(test, polarity=True):
+    """Atoms that certainly hold when `test` has the given truth value: like
+    patterns.conjuncts, but a disjunctive sub-term is skipped instead of making
+    the whole test unreadable (`a and (b or c)` true => a)."""
+    if isinstance(test, ast.UnaryOp) and isinstance(test.op, ast.Not):
+        return definite_atoms(test.operand, not polarity)
+    if isinstance(test, ast.BoolOp):
+        if isinstance(test.op, ast.And) == polarity:
+            out = []
+            for v in test.values:
+                out += definite_atoms(v, polarity)
+            return out
+        return []
+    return conjuncts(test, polarity) or []
+
+
+def sparse_only_guarded(ck, rule, mod, fn, qual):
+    """A variable that the function itself tests with issparse(...) holds a
+    dense OR a sparse matrix (both are admitted: `T : ndarray` in the
+    docstrings, sparse from the builders).  An attribute that only
+    scipy.sparse containers have (.tocsr(), .toarray(), .nnz ...) may be read
+    from it only where issparse(<that value>) is known to hold: on an ndarray
+    it raises AttributeError.  Decided per read through the branch assumptions
+    that dominate it (the tested name must denote the same value as the one
+    read: same reaching definitions, no rebinding in between)."""
+    fi = finfo(mod, fn)
+    tests = []      # (Assume, Name node tested, polarity) for conjunctive issparse facts
+    tested_names = set()
+    for c in calls_in(fn):
+        if _last(c) in ('issparse', 'isspmatrix') and len(c.args) == 1 and isinstance(c.args[0], ast.Name):
+            tested_names.add(c.args[0].id)
+    for a in fi.cfg.nodes:
+        if isinstance(a, Assume):
+            for cj in definite_atoms(a.test, a.polarity):
+                if isinstance(cj, tuple) and isinstance(cj[1], ast.Call) and _last(cj[1]) in ('issparse', 'isspmatrix') and \
+                        len(cj[1].args) == 1 and isinstance(cj[1].args[0], ast.Name):
+                    tests.append((a, cj[1].args[0], cj[2]))
+    n = 0
+    for at in walk_local(fn):
+        if not (isinstance(at, ast.Attribute) and at.attr in _SPARSE_ONLY and isinstance(at.ctx, ast.Load) and
+                isinstance(at.value, ast.Name) and at.value.id in tested_names):
+            continue
+        st = fi.stmt(at)
+        if st is None:
+            continue
+        n += 1
+        # inside a conditional expression the read is guarded locally: `X.tocsr() if issparse(X) else X`;
+        # inside a boolean operator / comprehension / lambda: not decided here
+        par, child, local, local_pol = mod.parent.get(at), at, False, set()
+        while par is not None and par is not st:
+            if isinstance(par, ast.IfExp) and child is not par.test:
+                got = None
+                for cj in definite_atoms(par.test, child is par.body):
+                    if isinstance(cj, tuple) and isinstance(cj[1], ast.Call) and _last(cj[1]) in ('issparse', 'isspmatrix') and \
+                            len(cj[1].args) == 1 and isinstance(cj[1].args[0], ast.Name) and cj[1].args[0].id == at.value.id:
+                        got = cj[2]
+                if got is None:
+                    local = True
+                else:
+                    local_pol.add(got)
+            elif isinstance(par, (ast.IfExp, ast.BoolOp, ast.ListComp, ast.GeneratorExp, ast.DictComp, ast.SetComp, ast.Lambda)):
+                local = True
+            child, par = par, mod.parent.get(par)
+        # handlers that catch the AttributeError
+        catches = False
+        par = mod.parent.get(st)
+        while par is not None and par is not fn:
+            if isinstance(par, ast.Try) and any(st is b or any(x is st for x in ast.walk(b)) for b in par.body):
+                for h in par.handlers:
+                    if h.type is None or any(isinstance(x, ast.Name) and x.id in ('AttributeError', 'Exception', 'BaseException')
+                                             for x in ast.walk(h.type)):
+                        catches = True
+            par = mod.parent.get(par)
+        pols = {pol for a, nm, pol in tests if fi.cfg.dominates(a, st) and fi.same_value(nm, at.value)} | local_pol
+        construct = '`%s.%s` read where issparse(%s) is %s' % (at.value.id, at.attr, at.value.id,
+                                                              'known' if True in pols else ('known to be False' if False in pols else 'not known'))
+        if True in pols:
+            ck.ok(rule, mod, at, construct, 'sparse-only attribute read under issparse')
+        elif local or catches or any(isinstance(x, ast.Call) and call_name(x) in ('hasattr', 'isinstance') for a in fi.cfg.nodes
+                                     if isinstance(a, Assume) and fi.cfg.dominates(a, st) for x in ast.walk(a.test)):
+            ck.missing(rule, 'guard of the sparse-only attribute `%s` at line %s of %s' % (_short(at), at.lineno, qual))
+        else:
+            ck.bad(rule, mod, at, qual, construct,
+                   '`%s` exists only on scipy.sparse containers, but `%s` may be a dense ndarray here (%s tests issparse(%s) itself, and '
+                   'on this path that test %s): a dense transition matrix raises AttributeError' % (
+                       _short(at), at.value.id, qual, at.value.id,
+                       'is False' if False in pols else 'has not been established (it is absent, or only one arm of an `or`)'))
+    return n
+
+
+def optional_arguments(ck, rule, mod, fn, qual):
+    """Parameters whose default is None (`n_eigs=None`, `n_times=None`,
+    `observable_per_state=None`).  Necessary for "the explicit argument is
+    used, the default is computed only when none was given":
+    (a) a store that REPLACES the parameter by a value that does not depend on
+        it is executed only where `p is None` is known - under `p is not None`
+        the caller's value is discarded and None is left in place;
+    (b) the parameter is not used as an operand (arithmetic, ordering
+        comparison, subscript, attribute, .dot / @) where `p is None` is known.
+    Both are decided from the branch assumptions that dominate the statement;
+    a test of p the rule cannot read (inside an `or`, through a helper) leaves
+    the statement undecided, never violated."""
+    fi = finfo(mod, fn)
+    n = 0
+    for p in params(fn):
+        from ..core import param_default
+        d = param_default(fn, p)
+        if not (isinstance(d, ast.Constant) and d.value is None):
+            continue
+        facts = []      # (Assume, is_none: bool)
+        for a in fi.cfg.nodes:
+            if not isinstance(a, Assume):
+                continue
+            for cj in definite_atoms(a.test, a.polarity):
+                if isinstance(cj, Cmp) and cj.op in (ast.Is, ast.IsNot, ast.Eq, ast.NotEq):
+                    for x, y in ((cj.lhs, cj.rhs), (cj.rhs, cj.lhs)):
+                        if isinstance(x, ast.Name) and x.id == p and isinstance(y, ast.Constant) and y.value is None \
+                                and defs_of(fi, x) == {'PARAM'}:
+                            facts.append((a, cj.op in (ast.Is, ast.Eq)))
+        unread = [a for a in fi.cfg.nodes if isinstance(a, Assume) and p in names_loaded(a.test) and
+                  not any(a is b for b, _ in facts)]
+
+        def known(st):
+            return {isn for a, isn in facts if fi.cfg.dominates(a, st)}
+
+        def undecidable(st):
+            return any(fi.cfg.dominates(a, st) for a in unread)
+        # (a) replacing stores
+        for st in assigns_to(fn, p):
+            if not isinstance(st, (ast.Assign, ast.AnnAssign)) or fi.rd.defs_at(st, p) != {'PARAM'}:
+                continue
+            v = fi.def_value(st, p)
+            if v is None or p in names_loaded(fi.expand(v, stop=(p,))):
+                continue            # derived from the argument (clipping, conversion): not a default
+            n += 1
+            k = known(st)
+            construct = 'default for `%s` computed where `%s is None` is %s' % (p, p, 'known' if True in k else (
+                'known to be False' if False in k else 'not known'))
+            if True in k:
+                ck.ok(rule, mod, st, construct, 'the default replaces None only')
+            elif False in k:
+                ck.bad(rule, mod, st, qual, construct,
+                       '`%s` is executed only when `%s is not None`: an explicit %s=... passed by the caller is overwritten, and when the '
+                       'argument is omitted None stays in place (the next arithmetic / comparison on it raises TypeError)' % (_short(st, 80), p, p))
+            else:
+                ck.missing(rule, 'condition under which %s replaces its parameter `%s` (%s)' % (qual, p, _short(st, 60)))
+        # (b) operand uses where the parameter is known to be None
+        for x in walk_local(fn):
+            if not (isinstance(x, ast.Name) and x.id == p and isinstance(x.ctx, ast.Load)):
+                continue
+            par = mod.parent.get(x)
+            operand = isinstance(par, (ast.BinOp, ast.UnaryOp)) and not (isinstance(par, ast.UnaryOp) and isinstance(par.op, ast.Not)) or \
+                (isinstance(par, ast.Compare) and any(isinstance(o, (ast.Lt, ast.LtE, ast.Gt, ast.GtE)) for o in par.ops)) or \
+                (isinstance(par, ast.Subscript)) or (isinstance(par, ast.Attribute) and par.value is x) or \
+                (isinstance(par, ast.Call) and x in par.args and (
+                    (isinstance(par.func, ast.Attribute) and par.func.attr in ('dot', 'matmul', 'multiply')) or
+                    call_name(par) in ('np.dot', 'np.matmul', 'np.multiply', 'np.inner', 'len', 'int', 'float', 'range')))
+            if not operand:
+                continue
+            st = fi.stmt(x)
+            if st is None or defs_of(fi, x) != {'PARAM'}:
+                continue
+            k = known(st)
+            if True in k and False not in k and not undecidable(st):
+                n += 1
+                ck.bad(rule, mod, st, qual, '`%s` used as an operand where `%s is None` is known' % (p, p),
+                       '`%s` runs only when `%s is None`, and uses it as an operand there: TypeError for the default call, and the '
+                       'branch meant for an explicit %s is the one taken when none was given' % (_short(st, 80), p, p))
+            elif False in k:
+                n += 1
+                ck.ok(rule, mod, st, '`%s` used as an operand where `%s is not None` is known' % (p, p), '')
+    return n
+
+
+def d4_request_domain(ck):
+    """Argument validation of eigenspectrum must not refuse a request inside
+    the contract: n_eigs >= 2 is what calc_imp_times (n_times + 1, n_times >=
+    1) and eq_probs (3) pass.  For every `raise` whose dominating conditions
+    are comparisons of the unmodified parameter n_eigs with integer constants
+    (plus `is not None`), the conditions are evaluated over the integers
+    n >= 2 (the finitely many cases around the constants and one large
+    value): if they can all hold there, a valid request raises."""
+    rule = 'C16.D4.spectrum.request-domain'
+    mod = ck.repo.mod(TM)
+    fn = mod.func('eigenspectrum')
+    fi = finfo(mod, fn)
+    ps = params(fn)
+    if len(ps) < 2:
+        return
+    NE = ps[1]
+    ops = {ast.Lt: lambda a, b: a < b, ast.LtE: lambda a, b: a <= b, ast.Gt: lambda a, b: a > b, ast.GtE: lambda a, b: a >= b,
+           ast.Eq: lambda a, b: a == b, ast.NotEq: lambda a, b: a != b}
+    for r in walk_local(fn):
+        if not isinstance(r, ast.Raise) or fi.stmt(r) is None:
+            continue
+        preds, readable, about = [], True, False
+        for a in fi.cfg.nodes:
+            if not (isinstance(a, Assume) and fi.cfg.dominates(a, r)):
+                continue
+            cj = conjuncts(a.test, a.polarity)
+            if cj is None:
+                readable = False
+                continue
+            for c in cj:
+                if not isinstance(c, Cmp):
+                    readable = False
+                    continue
+                sides = [(c.lhs, c.rhs, False), (c.rhs, c.lhs, True)]
+                done = False
+                for x, y, flipped in sides:
+                    if isinstance(x, ast.Name) and x.id == NE and defs_of(fi, x) == {'PARAM'}:
+                        if isinstance(y, ast.Constant) and y.value is None and c.op in (ast.Is, ast.IsNot, ast.Eq, ast.NotEq):
+                            if c.op in (ast.Is, ast.Eq):
+                                preds.append(lambda n: False)       # n is None: not an integer request
+                            done = True
+                        else:
+                            k = const_value(y, default=None)
+                            if isinstance(k, int) and not isinstance(k, bool) and c.op in ops:
+                                f = ops[c.op]
+                                preds.append((lambda n, f=f, k=k: f(k, n)) if flipped else (lambda n, f=f, k=k: f(n, k)))
+                                about = done = True
+                        break
+                if not done:
+                    readable = False
+        if not about or not readable:
+            continue
+        ks = sorted({k for a in fi.cfg.nodes if isinstance(a, Assume) and fi.cfg.dominates(a, r) for x in ast.walk(a.test)
+                     if isinstance(x, ast.Constant) and isinstance(x.value, int) and not isinstance(x.value, bool) for k in (x.value,)})
+        cand = sorted({n for k in ks for n in (k - 1, k, k + 1)} | {2, 3, 10 ** 9})
+        hit = [n for n in cand if n >= 2 and all(p_(n) for p_ in preds)]
+        ck.check(not hit, rule, mod, r, 'eigenspectrum', 'raise under a bound on `%s`' % NE,
+                 'only requests for fewer than two eigenpairs are refused',
+                 '`%s` is reached for %s=%s: a request inside the contract (n_eigs >= 2: calc_imp_times asks for n_times + 1, eq_probs '
+                 'for 3) is refused, no spectrum / implied timescales are returned' % (_short(r, 70), NE, hit[0] if hit else ''))
+
+
 def _guarded(ck, rule, f, *args):
     """An unexpected shape that makes a rule raise is an unrecognised
     construct (analysis incomplete), not an analysis error."""
@@ -2075,13 +3065,24 @@ def check(ck):
     _guarded(ck, 'C16.D3.save-load', d3_saveload, mod)
     check_spectrum(ck, 'C16.D4', arpack_k=True)
     _guarded(ck, 'C16.D4.spectrum.reentry', d4_reentry)
+    _guarded(ck, 'C16.D4.spectrum.request-domain', d4_request_domain)
     _guarded(ck, 'C16.D5.timescales', d5_timescales)
     # added after the bug hunt (round 4): see the docstrings
     _guarded(ck, 'C16.D5.timescales.length', d5_length)
+    _guarded(ck, 'C16.D5.timescales.clip', d5_clip)
     _guarded(ck, 'C16.D3.equality.container', d3_equality, mod)
+    _guarded(ck, 'C16.D3.equality.exits', d3_eq_exits, mod)
+    _guarded(ck, 'C16.D3.save-load.files', d3_files, mod)
     _guarded(ck, 'C16.D3.save-load.shape', d3_shape, mod)
     _guarded(ck, 'C16.D3.save-load.overwrite', d3_overwrite, mod)
     _guarded(ck, 'C16.D5.ensemble', d5_ensemble)
+    _guarded(ck, 'C16.D5.ensemble.container', sparse_only_guarded, 'C16.D5.ensemble.container', ck.repo.mod(SD),
+             ck.repo.mod(SD).func('synthetic_ensemble'), 'synthetic_ensemble')
+    _guarded(ck, 'C16.D4.spectrum.container', sparse_only_guarded, 'C16.D4.spectrum.container', ck.repo.mod(TM),
+             ck.repo.mod(TM).func('eigenspectrum'), 'eigenspectrum')
+    for m_, q_ in ((TM, 'eigenspectrum'), (TS, 'implied_timescales'), (TS, 'calc_imp_times'), (SD, 'synthetic_ensemble')):
+        _guarded(ck, 'C16.D8.optional-arguments', optional_arguments, 'C16.D8.optional-arguments', ck.repo.mod(m_),
+                 ck.repo.mod(m_).func(q_), q_)
     check_no_arg_mutation(ck, 'C16.D6.inputs-unmodified', [
         (MS, 'MSM.fit'), (TS, 'implied_timescales'), (TS, 'calc_imp_times'),
         (SD, 'synthetic_ensemble'), (TM, 'eigenspectrum')])
